@@ -184,7 +184,11 @@ def run(ctx, R):
         d = L["default"]
         want = f"{selfn}.{target}"
         ok = d is not None and (unparse(d) == want or (isinstance(d, ast.Call) and len(d.args) == 1 and unparse(d.args[0]) == want))
-        if ok:
+        inside = {id(x) for x in ast.walk(d)} if d is not None else set()
+        merged = [x for x in ast.walk(L["value"]) if isinstance(x, ast.Attribute) and id(x) not in inside and unparse(x) == want]
+        if merged:
+            R.violation("C19.R2", f.short, k, l, f"the stored value is computed from the current value {want} also when the file gives {L['key']!r}: the file's value is merged with the command-line value instead of replacing it")
+        elif ok:
             R.ok("C19.R2", f.short, k, l)
         else:
             R.violation("C19.R2", f.short, k, l, f"an option absent from the file is reset to {unparse(d) if d is not None else 'None'} instead of keeping its command-line value ({want})")
